@@ -1,6 +1,7 @@
 import OtelVerif.Common.Line
 import OtelVerif.Model.C09Fmt
 import OtelVerif.Model.C10
+import OtelVerif.Model.C10Shape
 /-! driver for C10: model `c10-lifecycle`
 
 ops (see harness/c10/service_test.go):
@@ -40,11 +41,16 @@ structure S where
   failS : List String := []
   failT : List String := []
   failCreate : List Node := []   -- components whose factory fails inside service.New
+  failCreateExt : List Nat := [] -- extensions whose factory fails inside service.New (extensions.New)
   failN : List String := []      -- extensions whose NotifyConfig fails
   failR : List String := []      -- extensions whose Ready fails
+  failQ : List String := []      -- extensions whose NotReady fails
   hookFailSeen : Bool := false   -- implementation: some notify/ready event failed
+  notReadyFailSeen : Bool := false   -- implementation: some NotReady call failed
+  notReadySeen : List Comp := []     -- implementation: extensions whose NotReady was called (reversed)
   newEmitted : Bool := false
   implNew : Option String := none
+  implExtMsg : Option (List String) := none   -- content of computeOrder's error (tr extmsg …)
   starts : List (Comp × Bool) := []     -- implementation, reversed; includes inner
   stops : List (Comp × Bool) := []      -- implementation, reversed; includes inner
   implStart : Option Bool := none
@@ -53,7 +59,7 @@ structure S where
   bad : Option String := none
 
 def newResult (s : S) : String :=
-  match newServiceWith s.cfg s.exts (fun n => s.failCreate.contains n) with
+  match newServiceWithX s.cfg s.exts (fun n => s.failCreate.contains n) (fun e => s.failCreateExt.contains e) with
   | some (.new .connector) => "err=connector"
   | some (.new .cycle) => "err=cycle"
   | some (.new .extMissing) => "err=extmissing"
@@ -156,11 +162,13 @@ def handler : Handler S where
       | some i => ({ s with sharedConn := some i }, [])
       | none => (s, ["obs bad-op"])
     | ["failcreate", l] =>
-      match parseNode l with
-      | some n => ({ s with failCreate := s.failCreate ++ [n] }, [])
-      | none => (s, ["obs bad-op"])
+      match parseNode l, parseComp l with
+      | some n, _ => ({ s with failCreate := s.failCreate ++ [n] }, [])
+      | none, some (Comp.ext e) => ({ s with failCreateExt := s.failCreateExt ++ [e] }, [])
+      | none, _ => (s, ["obs bad-op"])
     | ["failnotify", l] => let (s, o) := emitNew s; ({ s with failN := s.failN ++ [l] }, o)
     | ["failready", l] => let (s, o) := emitNew s; ({ s with failR := s.failR ++ [l] }, o)
+    | ["failnotready", l] => let (s, o) := emitNew s; ({ s with failQ := s.failQ ++ [l] }, o)
     | ["failstart", l] => let (s, o) := emitNew s; ({ s with failS := s.failS ++ [l] }, o)
     | ["failstop", l] => let (s, o) := emitNew s; ({ s with failT := s.failT ++ [l] }, o)
     | ["run"] =>
@@ -175,10 +183,12 @@ def handler : Handler S where
       match parseComp label, (if res = "ok" then some true else if res = "fail" then some false else none) with
       | some c, some ok =>
         if kind = "notify" || kind = "ready" then { s with hookFailSeen := s.hookFailSeen || !ok }
+        else if kind = "notready" then { s with notReadyFailSeen := s.notReadyFailSeen || !ok, notReadySeen := c :: s.notReadySeen }
         else if kind = "start" || kind = "istart" then { s with starts := (c, ok) :: s.starts }
         else if kind = "stop" || kind = "istop" then { s with stops := (c, ok) :: s.stops }
         else { s with bad := some s!"unknown event kind {kind}" }
       | _, _ => { s with bad := some s!"unparsable event {label} {res}" }
+    | "tr" :: "extmsg" :: rest => { s with implExtMsg := some rest }
     | ["tr", "orphan", _] => s   -- instance created for a repeated list entry and dropped by extensions.New (recorded, see report)
     | ["obs", "new", r] => { s with implNew := some r }
     | ["obs", "start", r] => { s with implStart := some (r = "ok") }
@@ -210,7 +220,10 @@ def handler : Handler S where
         clause "stop_ext_last" (stopsExtLast sys spc) "C10/stop/extension-before-a-pipeline-component",
         clause "stop_dependent_first" (stopsDependentFirst sys spc) "C10/stop/dependency-before-its-dependent",
         clause "failed_start_last" (failedStartIsLast st) "C10/failure/component-started-after-a-failed-start",
-        clause "results" ((o.startOk == (allOk stAll && !s.hookFailSeen)) && (o.stopOk == allOk spAll)) "C10/failure/reported-result-differs-from-component-results",
+        clause "results" ((o.startOk == (allOk stAll && !s.hookFailSeen)) && (o.stopOk == (allOk spAll && !s.notReadyFailSeen))) "C10/failure/reported-result-differs-from-component-results",
+        -- Service.Shutdown: every extension is told `NotReady`, once, before anything is shut down, whatever an earlier call returned
+        clause "notready_all" (s.exts.all (fun e => s.notReadySeen.count (Comp.ext e.id) == 1) && s.notReadySeen.length == s.exts.length)
+          "C10/stop/notready-not-delivered-once-to-every-extension",
         clause "started_all" (startedAll sys o) "C10/start/successful-start-skipped-a-component" ]
     -- components built on sharedcomponent: the inner component against ALL its instances' neighbours
     let sharedProps : List (Option String) :=
@@ -245,8 +258,11 @@ def handler : Handler S where
       isTopoB (s.exts.map (·.id)) (extEdges s.exts) msys.eorder
     let mgroups : List Group := (groups s).map (fun g => { inner := g.2.1, insts := g.2.2.map Comp.node })
     let isInstC (c : Comp) : Bool := mgroups.any (fun g => g.insts.contains c)
-    let planStart := msys.eorder.map Comp.ext ++ startPlan msys.gorderStart
-    let planStop := stopPlan msys.gorderStop
+    -- the loops are EXECUTED in the form interpreted from the regenerated shape (`Gen/LifecycleShape.lean`); `C10_loops_as_regenerated`
+    -- proves that for the current tree they are `serviceStartH` / `serviceShutdownH` / `startPlan` / `stopPlan`
+    let planStart := extPlanShape OtelVerif.Gen.LifecycleShape.extStartReverse msys.eorder ++
+      planOfShape OtelVerif.Gen.LifecycleShape.startAllReverse OtelVerif.Gen.LifecycleShape.startAllDeferred msys.gorderStart
+    let planStop := planOfShape OtelVerif.Gen.LifecycleShape.shutdownAllReverse OtelVerif.Gen.LifecycleShape.shutdownAllDeferred msys.gorderStop
     -- an injected failure of a shared inner component is reported by the instance whose call reaches it first
     let carrier (plan : List Comp) (fl : List String) (c : Comp) : Bool :=
       mgroups.any (fun g => fl.contains (compTok g.inner) && plan.find? (fun x => g.insts.contains x) == some c)
@@ -255,23 +271,58 @@ def handler : Handler S where
     let failT (c : Comp) : Bool := (s.failT.contains (compTok c) && !(isInstC c)) || carrier planStop s.failT c
     let failN (e : Nat) : Bool := s.failN.contains (compTok (Comp.ext e))
     let failR (e : Nat) : Bool := s.failR.contains (compTok (Comp.ext e))
-    let tr := serviceStartH msys failS failN failR
+    let tr := serviceStartShape msys failS failN failR
     let life := lifetime msys failS failT
+    let failQ (e : Nat) : Bool := s.failQ.contains (compTok (Comp.ext e))
+    let str := serviceShutdownShape msys failT failQ
     -- without hook failures `Service.Start` is `serviceStart` (= `(lifetime …).starts`)
-    let compStartsGraph := if s.failN.isEmpty && s.failR.isEmpty then life.starts.drop tr.exts.length else tr.graph
+    let compStartsGraph := tr.graph
+    -- the documented model (`lifetime` = `run`: `serviceStart`, `serviceShutdown`) and the shape-interpreted loops must agree on this case
+    let shapeAgrees := str.stops == life.stops &&
+      (!(s.failN.isEmpty && s.failR.isEmpty) || tr.exts ++ tr.graph == life.starts)
     let initSt : List (Group × Shared) := mgroups.map (fun g => (g, {}))
     let mStart := tr.exts ++
       withInner .start mgroups (fun c => s.failS.contains (compTok c)) (fun c => !(s.failS.contains (compTok c))) initSt compStartsGraph
     let hookToks := fun (pre : String) (l : List (Nat × Bool)) => l.map (fun e => pre ++ evTok (Comp.ext e.1, e.2))
     let mStartToks := (tr.exts.map evTok) ++ hookToks "notify." tr.notifies ++ ((mStart.drop tr.exts.length).map evTok) ++ hookToks "ready." tr.readies
-    let mStop := withInner .stop mgroups (fun _ => false) (fun c => !(s.failT.contains (compTok c))) initSt life.stops
+    -- `serviceShutdownH`'s component log is `lifetime`'s (`C10_shutdown_hooks`); both are computed, the hook version is printed
+    let mStop := withInner .stop mgroups (fun _ => false) (fun c => !(s.failT.contains (compTok c))) initSt
+      str.stops
+    let mStopToks := hookToks "notready." str.notreadies ++ mStop.map evTok
     let runLines : List String :=
       if !s.ran then [] else
       [s!"obs start {if tr.ok then "ok" else "fail"}", obsList "stops" (mStop.map (fun e => compTok e.1)),
        obsList "stoperr" ((mStop.filter (fun e => !e.2)).map (fun e => compTok e.1)),
-       if mStop.all (·.2) then "obs shutdown ok" else "obs shutdown err",
+       if mStop.all (·.2) && str.notreadies.all (·.2) then "obs shutdown ok" else "obs shutdown err",
        s!"obs startlog {mStartToks.length} " ++ " ".intercalate mStartToks,
-       s!"obs stoplog {mStop.length} " ++ " ".intercalate (mStop.map evTok)]
+       s!"obs stoplog {mStopToks.length} " ++ " ".intercalate mStopToks]
+    -- the result of `service.New` against `newServiceWithX` (C10_new_with_failing_factory / _ext_factory, C10_invalid_pipelines_start_nothing):
+    -- a direct verdict beside the obs diff, so that a wrongly accepted / rejected service is reported with its case
+    let fails := fails ++ (match s.implNew with
+      | some r =>
+        let cls := (r.splitOn ":").headD r
+        let want := if newResult s == "ok" then "ok" else newResult s
+        let got := if cls == "ok" then "ok" else "err=" ++ ((cls.splitOn "=").getD 1 cls)
+        if got == want then [] else [s!"prop new=FAIL sig=C10/new/result-{got}-where-the-model-says-{want}"]
+      | none => [])
+    -- content of `computeOrder`'s errors: a genuine missing dependency / a genuine dependency cycle (`C10_ext_*_message_sound`)
+    let fails := fails ++ (match s.implExtMsg with
+      | none =>
+        if s.implNew == some "err=extcycle" || s.implNew == some "err=extmissing" then
+          ["prop extmsg=FAIL sig=C10/new/extension-order-error-without-parsable-message"] else []
+      | some ("missing" :: d :: e :: []) =>
+        match d.toNat?, e.toNat? with
+        | some d, some e => if extMissingMsgOk s.exts d e then [] else
+            [s!"prop extmsg=FAIL sig=C10/new/missing-dependency-message-names-no-missing-dependency {d} {e}"]
+        | _, _ => ["prop extmsg=FAIL sig=C10/new/extension-order-message-unparsable"]
+      | some ("cycle" :: ids) =>
+        match ids.mapM String.toNat? with
+        | some l => if extCycleMsgOk s.exts l then [] else
+            [s!"prop extmsg=FAIL sig=C10/new/extension-cycle-message-is-not-a-dependency-cycle {l}"]
+        | none => ["prop extmsg=FAIL sig=C10/new/extension-order-message-unparsable"]
+      | some _ => ["prop extmsg=FAIL sig=C10/new/extension-order-message-unparsable"])
+    let fails := fails ++ (if s.ran && !shapeAgrees then
+      ["prop shape=FAIL sig=C10/model/regenerated-loop-shape-differs-from-the-documented-model"] else [])
     let fails := fails ++ (if s.ran && !admissible then
       ["prop orders_admissible=FAIL sig=C10/model/order-rebuilt-from-the-log-is-not-topological"] else [])
     match s.bad with
